@@ -4,6 +4,7 @@ import ast
 import math
 
 from . import ep
+from . import modelguard
 from .ep import Unsupported
 from .model import AnalysisError, FuncInfo, ClassInfo, ExternalClass
 from .values import *    # noqa
@@ -426,7 +427,22 @@ class OpsMixin(object):
                 return Opaque(("sorted_item", base.key(), int(c)))
         self.err(node, "subscript of %r" % (base,))
 
-    def slice(self, base, lo, hi, node=None):
+    def slice(self, base, lo, hi, node=None, step=None):
+        if step is not None:
+            def cb(v):
+                if v is None or (isinstance(v, Const) and v.v is None):
+                    return None
+                c = v.const() if isinstance(v, Num) else None
+                if c is None or c.denominator != 1:
+                    self.err(node, "symbolic slice bound with a step")
+                return int(c)
+            if isinstance(base, NTV):
+                base = ListV(base.values, "tuple")
+            if isinstance(base, ListV) and not getattr(base, "tail", None):
+                return ListV(base.items[cb(lo):cb(hi):step], base.kind)
+            if isinstance(base, Const) and isinstance(base.v, str):
+                return Const(base.v[cb(lo):cb(hi):step])
+            self.err(node, "stepped slice of %r" % (base,))
         if isinstance(base, Opaque) and base.path in self.elem_classes or (isinstance(base, SeqV) and base.kind == "opaque"):
             seq = base if isinstance(base, SeqV) else SeqV("opaque", path=base.path, elem_class=self.elem_classes.get(base.path))
             lo_rf = self.num(lo, node) if lo is not None else ep.const(0)
@@ -462,7 +478,16 @@ class OpsMixin(object):
         g = node.generators[0]
         it = self.eval(g.iter, env)
         seq = self.as_iterable(it, node)
+        return self._comp_over(seq, node, g, env, kind)
+
+    def _comp_over(self, seq, node, g, env, kind):
         sub = Env(parent=env, label=env.label)
+        if isinstance(seq, SeqV) and seq.kind == "concat" and not g.ifs:
+            # a comprehension over a concatenation is the concatenation of the comprehensions over its parts
+            out = ListV([], "list")
+            for p in seq.parts:
+                out = seq_concat(out, self._comp_over(p, node, g, env, kind))
+            return out
         if isinstance(seq, ListV) and len(seq.items) <= self.UNROLL_LIMIT:
             out = []
             for item in seq.items:
@@ -551,7 +576,11 @@ class OpsMixin(object):
             return self.call_external(fn, args, kwargs, node, env)
         if isinstance(fn, BoundBuiltin):
             if isinstance(fn.base, PyObjV):
-                return getattr(fn.base.obj, "m_" + fn.name)(self, args, kwargs)
+                h = getattr(fn.base.obj, "m_" + fn.name)
+                ig = modelguard.unread(h, args, kwargs)
+                if ig is not None:
+                    self.err(node, "model of %s.%s does not cover %s" % (type(fn.base.obj).__name__, fn.name, ig))
+                return h(self, args, kwargs)
             return self.call_bound(fn, args, kwargs, node)
         if isinstance(fn, InstV):
             c = fn.ci.lookup("__call__")
@@ -562,6 +591,9 @@ class OpsMixin(object):
             clos = getattr(fn, "closure", None)
             return self.call_function(FuncV(c, closure=clos, selfv=fn), args, kwargs, node)
         if isinstance(fn, PyObjV) and hasattr(fn.obj, "m___call__"):
+            ig = modelguard.unread(fn.obj.m___call__, args, kwargs)
+            if ig is not None:
+                self.err(node, "model of %s() does not cover %s" % (type(fn.obj).__name__, ig))
             return fn.obj.m___call__(self, args, kwargs)
         if isinstance(fn, Opaque):
             if kwargs:
